@@ -116,6 +116,13 @@ def runStreamDuplex (t : String) (stall : Nat) : String :=
 
 def runStream (ws : List String) : String :=
   match ws with
+  | ["slowreader", t] =>
+    -- one byte, then three 64 KiB pieces already queued when the second readiness event is processed: the
+    -- receive loop reads until WouldBlock whatever the callback's duration (time is not in the model)
+    let tail : List Bytes := (List.range 3).map fun k => (List.range 65536).map fun i => ((i * 7 + k * 13) % 256).toUInt8
+    let ms : List Bytes := [[1]] ++ tail
+    let r := if t = "F" then runStreamE2E "F" "1" ms else runStreamE2E "T" "1" ms
+    if r.startsWith "model:" then r else "delivered=all"
   | ["badka", t, _] =>
     -- a keepalive setting the OS rejects changes nothing in the model: `pending` answers Ready and the
     -- connection is the same abstract socket; five messages (sizes 0, 127, 128, 16384, 5) through the send
